@@ -71,6 +71,16 @@ def run(e: Engine, rep: Report):
              '(b) no spawn(self.<method that talks to the peer>) in a pool '
              'client')
     l9(e, rep)
+    rep.rule('L10', 'pools do not share state: no class-level mutable '
+             'object of the pool / client / deque classes is changed in '
+             'place through self without __init__ giving each instance its '
+             'own')
+    common.shared_state_rule(
+        e, rep, 'L10', ['slimta.relay.pool', 'slimta.util.deque',
+                        'slimta.relay.smtp', 'slimta.relay.http'],
+        'requests or clients of one relay are seen by another: a request '
+        'is served over a connection to the wrong destination, or a pool '
+        'counts clients that are not its own')
     rep.floor('L1', 4, 'pool growth sites')
     rep.floor('L4', 9, 'deque overrides')
 
